@@ -1,9 +1,9 @@
-SPECIFICATION Spec
+SPECIFICATION SpecWarm2
 CONSTANTS
   Nodes = {"n0", "n1"}
-  Apps = {"app0", "app1"}
+  Apps = {"app1"}
   Keys = {"k0", "k1", "k2"}
-  Caps = {2, 3}
+  Caps = {3}
   Sizes = {1, 2}
   Leaves <- MCLeaves
   QMax <- MCQMax
@@ -11,14 +11,13 @@ CONSTANTS
   TaskGroups = {"tg"}
   GangApps = {"app1"}
   Guar <- MCGuar
-  WithRestart = FALSE
+  WithRestart = TRUE
   PreemptOn = FALSE
   AsCoded = FALSE
-  MaxHist = 7
+  MaxHist = 12
 VIEW view
 CONSTRAINT Bound
 INVARIANT TypeOK
-INVARIANT EmitTest
 INVARIANT C01_NoOvercommit
 INVARIANT C02_QueueWithinMax
 INVARIANT C03_QueueLedger
